@@ -221,17 +221,17 @@ void h_init_none(void) {
 }
 
 /* =================================================== bounded: real bytewise comparator, ordering conclusion */
-#define BW_MAX 3      /* user key bytes */
+#define BW_MAX 4      /* user key bytes */
 static int ik_cmp(const ldb_comparator_t *ikc, const uint8_t *x, size_t xn, const uint8_t *y, size_t yn) {
   ldb_slice_t a, b; a.data = (uint8_t *)x; a.size = xn; a.alloc = 0; b.data = (uint8_t *)y; b.size = yn; b.alloc = 0;
   return ldb_ikc_compare(ikc, &a, &b);
 }
 void h_sep_bw(void) {
-  ldb_comparator_t ikc; ldb_buffer_t start; ldb_slice_t limit; uint8_t old[BW_MAX + 8]; size_t q;
-  IN_SIZE(in_sn); IN_SIZE(in_ln); IN_BYTES(in_s, BW_MAX + 8); IN_BYTES(in_l, BW_MAX + 8);
+  ldb_comparator_t ikc; ldb_buffer_t start; ldb_slice_t limit; uint8_t old[BW_MAX + 8];
+  IN_SIZE(in_sn); IN_SIZE(in_ln); IN_SIZE(in_q); IN_BYTES(in_l, BW_MAX + 8);
   ASSUME(in_sn >= 8 && in_sn <= BW_MAX + 8 && in_ln >= 8 && in_ln <= BW_MAX + 8);
-  start.data = malloc(in_sn); ASSUME(start.data != NULL); start.size = in_sn; start.alloc = in_sn;
-  for (q = 0; q < BW_MAX + 8; q++) { old[q] = in_s[q]; if (q < in_sn) start.data[q] = in_s[q]; }
+  start.data = malloc(BW_MAX + 8); ASSUME(start.data != NULL); start.size = in_sn; start.alloc = BW_MAX + 8;   /* arbitrary content */
+  memcpy(old, start.data, BW_MAX + 8);
   limit.data = in_l; limit.size = in_ln; limit.alloc = 0;
   ldb_ikc_init(&ikc, ldb_bytewise_comparator);
   CHECK(ikc.shortest_separator == ldb_ikc_shortest_separator && ikc.short_successor == ldb_ikc_short_successor, "ikc_init over the bytewise comparator offers both shortenings");
@@ -243,16 +243,16 @@ void h_sep_bw(void) {
   CHECK(ik_cmp(&ikc, old, in_sn, start.data, start.size) <= 0, "C16 separator (bytewise): start <= index key in internal order (every key of the block is <= its index key)");
   CHECK(ik_cmp(&ikc, start.data, start.size, in_l, in_ln) < 0, "C16 separator (bytewise): index key < limit in internal order (every key of the next block is > the index key)");
   if (start.size != in_sn) CHECK(IS_LE64(start.data + start.size - 8, SEEK_TAG), "separator (bytewise): a shortened key carries pack(kMaxSequenceNumber, kValueTypeForSeek)");
-  else for (q = 0; q < BW_MAX + 8; q++) CHECK(!(q < in_sn) || start.data[q] == old[q], "separator (bytewise): a key of unchanged length is unchanged (tag included)");
+  else CHECK(!(in_q < in_sn) || start.data[in_q] == old[in_q], "separator (bytewise): a key of unchanged length is unchanged (tag included)");
   free(start.data);
   CANARY();
 }
 void h_succ_bw(void) {
-  ldb_comparator_t ikc; ldb_buffer_t key; uint8_t old[BW_MAX + 8]; size_t q;
-  IN_SIZE(in_sn); IN_BYTES(in_s, BW_MAX + 8);
+  ldb_comparator_t ikc; ldb_buffer_t key; uint8_t old[BW_MAX + 8];
+  IN_SIZE(in_sn); IN_SIZE(in_q);
   ASSUME(in_sn >= 8 && in_sn <= BW_MAX + 8);
-  key.data = malloc(in_sn); ASSUME(key.data != NULL); key.size = in_sn; key.alloc = in_sn;
-  for (q = 0; q < BW_MAX + 8; q++) { old[q] = in_s[q]; if (q < in_sn) key.data[q] = in_s[q]; }
+  key.data = malloc(BW_MAX + 8); ASSUME(key.data != NULL); key.size = in_sn; key.alloc = BW_MAX + 8;   /* arbitrary content */
+  memcpy(old, key.data, BW_MAX + 8);
   ldb_ikc_init(&ikc, ldb_bytewise_comparator);
 
   ldb_ikc_short_successor(&ikc, &key);
@@ -260,7 +260,7 @@ void h_succ_bw(void) {
   CHECK(key.size >= 8 && key.size <= in_sn, "successor (bytewise): the result is an internal key, never longer than the key");
   CHECK(ik_cmp(&ikc, old, in_sn, key.data, key.size) <= 0, "C16 successor (bytewise): key <= index key of the last block in internal order");
   if (key.size != in_sn) CHECK(IS_LE64(key.data + key.size - 8, SEEK_TAG), "successor (bytewise): a shortened key carries pack(kMaxSequenceNumber, kValueTypeForSeek)");
-  else for (q = 0; q < BW_MAX + 8; q++) CHECK(!(q < in_sn) || key.data[q] == old[q], "successor (bytewise): a key of unchanged length is unchanged (tag included)");
+  else CHECK(!(in_q < in_sn) || key.data[in_q] == old[in_q], "successor (bytewise): a key of unchanged length is unchanged (tag included)");
   free(key.data);
   CANARY();
 }
